@@ -178,10 +178,48 @@ def rules(rep, m):
         r4.ok()
 
 
+    # R-C16-5 ------------------------------------------------------------
+    r5 = rep.rule("R-C16-5", "tail by shifting: where a sampler accumulates an offset across retry rounds (the exponential "
+                  "ziggurat restarts beyond the tail start, using memorylessness), every value returned from inside the retry "
+                  "loop adds that offset - a return without it folds tail samples back into the body", floor=3)
+    from ..astutil import float_value
+    for f in rnd:
+        offs = {}
+        for x in walk(f.body):
+            if x["kind"] == "VarDecl" and kids(x) and (x.get("type") or "").replace("const ", "") in ("double", "float") \
+                    and float_value(strip(kids(x)[0], casts=True)) == 0.0:
+                offs[x["id"]] = x["name"]
+        for vid, vn in offs.items():
+            ws = [(k_, n_) for l, r_, k_, n_ in inv.stores(f) if strip(l, casts=True).get("ref", {}).get("id") == vid]
+            if not ws or any(k_ != "+=" for k_, n_ in ws):
+                continue
+            loops = [lp for lp in walk(f.body) if lp["kind"] in ("ForStmt", "WhileStmt", "DoStmt") and
+                     any(y is ws[0][1] for y in walk(lp))]
+            if not loops:
+                continue
+            outer = loops[0]
+            rets = [x for x in walk(outer) if x["kind"] == "ReturnStmt" and kids(x)]
+            uses = [x for x in rets if any(y["kind"] == "DeclRefExpr" and y["ref"]["id"] == vid for y in walk(x))]
+            if not uses:
+                continue       # not an offset that is returned
+            for x in rets:
+                e = strip(kids(x)[0], casts=True)
+                top_sum = e["kind"] == "BinaryOperator" and e.get("opcode") == "+" and any(
+                    strip(z, casts=True)["kind"] == "DeclRefExpr" and strip(z, casts=True)["ref"]["id"] == vid for z in kids(e))
+                r5.instance("%s: return %s" % (f.name, render(e)[:70]))
+                if not top_sum:
+                    rep.finding(r5, f.name, "tail:offset-dropped", "%s returns '%s' from inside the retry loop without adding the "
+                                "accumulated offset '%s': after a tail round the sample is returned unshifted, so the tail of "
+                                "the distribution is folded back into its body" % (f.name, render(e)[:80], vn), where=m.rel(loc(x)))
+                    r5.fail()
+                else:
+                    r5.ok()
+
+
 def run(tier="quick"):
     models = common.load_models(tier)
     rep = Report(PID, tier, models[0])
-    rep.assumptions = ["only the four structural clauses are decided; nothing about distribution fit is claimed"]
+    rep.assumptions = ["only the structural clauses are decided; nothing about distribution fit is claimed"]
     rep.not_decided = ["distribution fit (moments, bin frequencies, EDF convergence)", "value-level support of the continuous "
                        "samplers (e.g. geometric(1.0) returning 0 is out of reach)"]
     for m in models[:1]:
